@@ -266,4 +266,42 @@ theorem find_dedupGo (k : BList) : ∀ (ps : List TProp) (seen : List BList), lo
         exact find_dedupGo k ps _ (by
           simp only [List.mem_cons, not_or]; exact ⟨fun h => hpk h.symm, hk⟩)
 
+/-- a list without two keys equal ignoring case, none of them seen before, is left as it is -/
+theorem dedupGo_id : ∀ (ps : List TProp) (seen : List BList),
+    ps.Pairwise (fun a b => lower a.key ≠ lower b.key) → (∀ p ∈ ps, lower p.key ∉ seen) →
+    dedupGo ps seen = ps
+  | [], _, _, _ => by simp [dedupGo]
+  | p :: ps, seen, hpw, hns => by
+    rw [dedupGo]
+    have hp : seen.contains (lower p.key) = false := by
+      simpa using hns p (List.mem_cons_self)
+    rw [hp]
+    simp only [Bool.false_eq_true, ↓reduceIte, List.cons.injEq, true_and]
+    have ⟨hhead, htail⟩ := List.pairwise_cons.mp hpw
+    refine dedupGo_id ps _ htail ?_
+    intro q hq
+    simp only [List.mem_cons, not_or]
+    exact ⟨fun h => hhead q hq h.symm, hns q (List.mem_cons_of_mem _ hq)⟩
+
+/-- nothing is dropped except behind an earlier property with the same key (ignoring case) -/
+theorem dedupGo_covers : ∀ (ps : List TProp) (seen : List BList), ∀ p ∈ ps,
+    lower p.key ∈ seen ∨ ∃ q ∈ dedupGo ps seen, lower q.key = lower p.key
+  | [], _ => by simp
+  | a :: ps, seen => by
+    intro p hp
+    rw [dedupGo]
+    by_cases ha : seen.contains (lower a.key) = true
+    · rw [if_pos ha]
+      rcases List.mem_cons.mp hp with rfl | hp
+      · left; simpa using ha
+      · exact dedupGo_covers ps seen p hp
+    · rw [if_neg ha]
+      rcases List.mem_cons.mp hp with rfl | hp
+      · exact Or.inr ⟨p, List.mem_cons_self, rfl⟩
+      · rcases dedupGo_covers ps (lower a.key :: seen) p hp with h | ⟨q, hq, hk⟩
+        · rcases List.mem_cons.mp h with h | h
+          · exact Or.inr ⟨a, List.mem_cons_self, h.symm⟩
+          · exact Or.inl h
+        · exact Or.inr ⟨q, List.mem_cons_of_mem _ hq, hk⟩
+
 end Mdns.Txt
